@@ -1923,8 +1923,16 @@ def init_rules(repo, chk):
             if cls_ is P:
                 o._attrs["_link_name"] = name
             return o
-        j1, j2, p1, t1 = elem(J, "J1"), elem(J, "J2"), elem(P, "P1"), elem(T, "T1")
-        controls = [("c1", Rec("c1", requires=lambda: [j1, p1, t1])), ("c2", Rec("c2", requires=lambda: [j2, j1]))]
+        j1, j2, p1, p2, t1 = elem(J, "J1"), elem(J, "J2"), elem(P, "P1"), elem(P, "P2"), elem(T, "T1")
+
+        def control(name, cond_reads, action_targets):
+            """the protocol of a control: requires() = what its condition reads plus what its actions change; actions() / condition answer for their own part only
+            (an element a control only READS must be protected as well as one it acts on)"""
+            acts = [Rec("%s.action%d" % (name, k_), requires=(lambda t_=t_: [t_]), target=(lambda t_=t_: (t_, "status"))) for k_, t_ in enumerate(action_targets)]
+            cond = Rec(name + ".condition", requires=lambda: list(cond_reads))
+            return Rec(name, requires=lambda: list(cond_reads) + list(action_targets), actions=lambda: list(acts), condition=cond, _condition=cond,
+                       _then_actions=acts, _else_actions=[])
+        controls = [("c1", control("c1", [j1, p1, t1], [p2])), ("c2", control("c2", [j2], [j1]))]
         sources = [("S1", Rec("S1", node_name="J3"))]
         G = Rec("graph")
         G.to_undirected = lambda: G
@@ -1945,7 +1953,7 @@ def init_rules(repo, chk):
         chk.expect(isinstance(je, list) and sorted(set(je)) == ["J1", "J2", "J3", "J9"], "R-C19-5", "junctions required by a control, named by the user or carrying a source are excluded from removal [%s]" % tag, loc(skel_init),
                    "an element referenced by a control (or named by the user) must never be removed; remove_node(force=True) only skips the control check: the registry still refuses a node "
                    "a source uses, after demands and pipes were already moved", expected=["J1", "J2", "J3", "J9"], found=je)
-        chk.expect(isinstance(pe, list) and sorted(set(pe)) == ["P1", "P9"], "R-C19-5", "pipes required by a control or named by the user are excluded from removal [%s]" % tag, loc(skel_init), expected=["P1", "P9"], found=pe)
+        chk.expect(isinstance(pe, list) and sorted(set(pe)) == ["P1", "P2", "P9"], "R-C19-5", "pipes required by a control (read by its condition or changed by its actions) or named by the user are excluded from removal [%s]" % tag, loc(skel_init), expected=["P1", "P2", "P9"], found=pe)
         sm = me._attrs.get("skeleton_map")
         chk.expect(sm == {n_: [n_] for n_ in wn.node_name_list}, "R-C19-6", "the initial skeleton map is {n: [n]} for every node [%s]" % tag, loc(skel_init), found=sm)
         hl = me._attrs.get("headloss")
